@@ -52,8 +52,15 @@ func (o *Out) emit(caseLine, implLine string) {
 	fmt.Fprintln(o.cases, caseLine)
 	fmt.Fprintln(o.impl, implLine)
 	o.n++
-	if len(o.samples) < 5 && len(caseLine) < 400 {
-		o.samples = append(o.samples, caseLine+"  =>  "+implLine)
+	if len(o.samples) < 5 {
+		c, i := caseLine, implLine
+		if len(c) > 400 {
+			c = c[:200] + " ... " + c[len(c)-150:]
+		}
+		if len(i) > 300 {
+			i = i[:300] + " ..."
+		}
+		o.samples = append(o.samples, c+"  =>  "+i)
 	}
 }
 
